@@ -475,6 +475,73 @@ int free_take(Pt p) { return p.x; }
 }
 
 
+# a Python-wrapped class whose methods and members need the list helpers (PY_array_arg: list): the per-class
+# type file uses helper functions and the Python 2/3 compatibility macros
+PYCLS = {
+    "yaml": """
+library: sub
+cxx_header: sub.hpp
+options: {debug: true, wrap_python: true, wrap_lua: false, wrap_fortran: false, wrap_c: false, PY_array_arg: list}
+declarations:
+- decl: class Accum
+  declarations:
+  - decl: Accum()
+  - decl: ~Accum()
+  - decl: int total(const int *v +rank(1), int n +implied(size(v)))
+  - decl: void fill(int *v +intent(out)+dimension(n), int n)
+  - decl: double mean(const double *x +rank(1), int n +implied(size(x)))
+  - decl: long span(const long *w +rank(1), int n +implied(size(w)))
+  - decl: int count +readonly
+- decl: int plain_total(const int *v +rank(1), int n +implied(size(v)))
+""",
+    "hpp": """
+#ifndef SUB_HPP
+#define SUB_HPP
+class Accum { public: int count; Accum(); ~Accum(); int total(const int *v, int n); void fill(int *v, int n);
+  double mean(const double *x, int n); long span(const long *w, int n); };
+int plain_total(const int *v, int n);
+#endif
+""",
+    "cpp": """
+#include "sub.hpp"
+Accum::Accum() : count(0) {} Accum::~Accum() {}
+int Accum::total(const int *v, int n) { int t = 0; for (int i = 0; i < n; i++) t += v[i]; return t; }
+void Accum::fill(int *v, int n) { for (int i = 0; i < n; i++) v[i] = i; }
+double Accum::mean(const double *x, int n) { double t = 0; for (int i = 0; i < n; i++) t += x[i]; return n ? t / n : 0.0; }
+long Accum::span(const long *w, int n) { return n ? w[n - 1] - w[0] : 0; }
+int plain_total(const int *v, int n) { int t = 0; for (int i = 0; i < n; i++) t += v[i]; return t; }
+""",
+}
+
+
+# a Python-wrapped class with a member of enumeration type
+PYENUM = {
+    "yaml": """
+library: sub
+cxx_header: sub.hpp
+options: {debug: true, wrap_python: true, wrap_lua: false, wrap_fortran: false, wrap_c: false}
+declarations:
+- decl: enum Color { RED = 1, BLUE = 5 }
+- decl: class Lamp
+  declarations:
+  - decl: Lamp()
+  - decl: ~Lamp()
+  - decl: Color tint
+""",
+    "hpp": """
+#ifndef SUB_HPP
+#define SUB_HPP
+enum Color { RED = 1, BLUE = 5 };
+class Lamp { public: Color tint; Lamp(); ~Lamp(); };
+#endif
+""",
+    "cpp": """
+#include "sub.hpp"
+Lamp::Lamp() : tint(RED) {} Lamp::~Lamp() {}
+""",
+}
+
+
 # ---------------------------------------------------------------------------
 # part 3: descriptions from LibGen
 def classify(lib, stage, fn, txt):
@@ -563,6 +630,14 @@ def explore(c, tier):
     cs_["funcs"] = []
     cs_["custom"] = CLSSTRUCT
     uniq.append(cs_)
+    pc_ = libgen.wide_library(wrap_python=True, wrap_fortran=False, wrap_c=False)
+    pc_["funcs"] = []
+    pc_["custom"] = PYCLS
+    uniq.append(pc_)
+    pe_ = libgen.wide_library(wrap_python=True, wrap_fortran=False, wrap_c=False)
+    pe_["funcs"] = []
+    pe_["custom"] = PYENUM
+    uniq.append(pe_)
     # one library per row with nothing else in it (a forgotten helper / include request is not masked)
     uniq += libgen.solo_libraries()
     if tier == "thorough":
